@@ -10,7 +10,10 @@ Part 3 (binding T): every shipped overlay class with default settings, on the pl
         message id arrive and 2 h of virtual time pass. The event log is validated by TLC against UnloadTrace.tla.
         Two scenario families put the overlay into a state with history before unload is requested: bootstrappers
         whose initialize() is in flight / whose broadcast socket is open (unload at every event after bootstrap()),
-        and exit sockets whose delayed removal is already scheduled (unload inside remove_tunnel_delay)."""
+        and exit sockets whose delayed removal is already scheduled (unload inside remove_tunnel_delay).
+        A third family runs the acquisition of the outside sockets in an environment that is slow and refuses sockets
+        (no IPv6 on the host, no descriptor left, the opening job cancelled by the removal of its exit socket):
+        SockTry / SockOpen / SockFail of Unload.tla, unload at every event while sockets are being opened."""
 from __future__ import annotations
 
 import json
@@ -26,18 +29,24 @@ from ..tlc import MachineryError, parse_value, run_tlc, scratch_dir
 
 PID = "C11"
 WIRINGS = ("plain", "tunnel")
-ACTIVITY = {"Handler", "Send", "TaskStep", "CacheTimeout", "SockOpen", "SockIn", "BootOpen", "BootIn"}
+ACTIVITY = {"Handler", "Send", "TaskStep", "CacheTimeout", "SockTry", "SockOpen", "SockIn", "BootOpen", "BootIn"}
+ACQUISITION = {"SockTry", "SockOpen", "SockFail"}
 _RE_REJECT = re.compile(r'<<\s*"C11REJECT",\s*(\[.*?\])\s*>>', re.S)
 UNLOAD_CFGS = {"Unload_mc.cfg": None, "Unload_pinned_wrapper.cfg": "SilentAfterUnload",
                "Unload_pinned_crypto.cfg": "SilentAfterUnload", "Unload_pinned_delay.cfg": "SilentAfterUnload",
-               "Unload_ctl_detached.cfg": "SilentAfterUnload", "Unload_ctl_stacked.cfg": "SilentAfterUnload"}
+               "Unload_ctl_detached.cfg": "SilentAfterUnload", "Unload_ctl_stacked.cfg": "SilentAfterUnload",
+               "Unload_ctl_unstored.cfg": "SilentAfterUnload", "Unload_ctl_orphan.cfg": "NoOrphanSocket"}
 UNLOAD_CTL_NAMES = {"Unload_ctl_detached.cfg": "a bootstrapper initialisation that its task does not await",
-                    "Unload_ctl_stacked.cfg": "an unload that leaves exit sockets with a pending removal to that removal"}
+                    "Unload_ctl_stacked.cfg": "an unload that leaves exit sockets with a pending removal to that removal",
+                    "Unload_ctl_unstored.cfg": "an exit socket that records its transports only when its whole opening job "
+                                               "has succeeded (unload reached)",
+                    "Unload_ctl_orphan.cfg": "an exit socket that records its transports only when its whole opening job "
+                                             "has succeeded (refused / cancelled attempt)"}
 UNLOAD_ACTIONS = ("Handler", "Send", "Register", "TaskStep", "TaskEnd", "CacheAdd", "CacheTimeout", "CachePop",
-                  "SockOpen", "SockClose", "SockIn", "RemoveSched", "BootInit", "BootOpen", "BootEnd", "BootClose",
+                  "SockTry", "SockOpen", "SockFail", "SockClose", "SockIn", "RemoveSched", "BootInit", "BootOpen", "BootEnd", "BootClose",
                   "BootIn", "UnloadStart", "U_Tunnels", "U_Cache", "U_Listener", "U_Tasks", "U_Boot", "U_Done")
 EVENT_KINDS = {"Handler", "Send", "Register", "TaskStep", "TaskEnd", "CacheAdd", "CacheTimeout", "CachePop", "SockOpen",
-               "SockClose", "SockIn", "RmSched", "BootInit", "BootOpen", "BootEnd", "BootClose", "BootIn", "UnloadStart",
+               "SockTry", "SockFail", "SockClose", "SockIn", "RmSched", "BootInit", "BootOpen", "BootEnd", "BootClose", "BootIn", "UnloadStart",
                "U_Tunnels", "U_Cache", "U_Listener", "U_Tasks", "U_Boot", "UnloadDone"}
 
 
@@ -54,6 +63,14 @@ def reason_of(ev, st):
         return "socket-opened-by-a-cancelled-initialisation"
     if e == "TaskEnd" and any(p[1] == ev["a"] for p in st.get("held", ())):
         return "initialisation-outlives-the-task-that-started-it"
+    if e == "TaskEnd" and any(p[0] == ev["a"] for p in st.get("trying", ())):
+        return "socket-open-attempt-outlives-the-task-that-started-it"
+    if e == "SockTry" and st["phase"] != "unloaded":
+        return "socket-asked-for-outside-a-live-task-of-an-exit-socket"
+    if e == "SockOpen" and st["phase"] != "unloaded":
+        if not any(p[0] == ev.get("t") for p in st.get("trying", ())):
+            return "socket-opened-without-an-attempt-in-flight"
+        return "socket-handed-to-a-cancelled-or-ended-job"
     if e == "UnloadDone":
         if st["tasks"] or st["dying"]:
             return "live-tasks-when-unload-returned"
@@ -156,6 +173,9 @@ def trace_part(ctx, tier, rng, keys, pool, after_recording=None):
             # unload while an API coroutine of T (DHT store/find, store_peer, ...) is in flight
             ks = sorted(set(ks) | {m + d for m in ref["marks"] for d in tuple(deltas) + tuple(scen.dense)
                                    if 1 <= m + d <= n})
+            # ... at every step of the acquisition of an outside socket (asked for / handed out / refused or abandoned)
+            ks = sorted(set(ks) | {i + 1 + d for i, e in enumerate(ref["events"][:n]) if e["e"] in ACQUISITION
+                                   for d in ((0,) if tier == "quick" else (0, 1, 2)) if i + 1 + d <= n})
             ts = [round(rng.uniform(0.0, 30.0), 3) for _ in range(times)]
             # ... and at virtual times after such a call (a crawl that waits for slow / silent nodes spans seconds but
             # only a few events)
@@ -247,11 +267,21 @@ def trace_part(ctx, tier, rng, keys, pool, after_recording=None):
 def history_cover(traces):
     """in how many recorded runs unload() was requested while ... (what the history scenarios are there for)"""
     out = {"initialisation_in_flight": 0, "bootstrap_socket_open": 0, "exit_socket_removal_pending": 0,
-           "every_open_exit_socket_has_a_removal_pending": 0}
+           "every_open_exit_socket_has_a_removal_pending": 0, "socket_open_attempt_in_flight": 0,
+           "socket_of_a_refused_opening_job_open": 0}
     for t in traces:
         jobs, bs, socks, pend = set(), set(), set(), set()
+        tries, opened_by, refused = {}, {}, set()
         for e in t["events"]:
             k, a = e["e"], e["a"]
+            if k == "SockTry":
+                tries[a] = tries.get(a, 0) + 1
+            elif k == "SockFail":
+                tries[a] = tries.get(a, 0) - 1
+                refused.add(a)
+            elif k == "SockOpen":
+                tries[e.get("t")] = tries.get(e.get("t"), 0) - 1
+                opened_by[a] = e.get("t")
             if k == "BootInit":
                 jobs.add(a)
             elif k == "BootEnd":
@@ -272,6 +302,8 @@ def history_cover(traces):
                 out["bootstrap_socket_open"] += bool(bs)
                 out["exit_socket_removal_pending"] += bool(pend)
                 out["every_open_exit_socket_has_a_removal_pending"] += bool(socks) and socks <= pend
+                out["socket_open_attempt_in_flight"] += any(v > 0 for v in tries.values())
+                out["socket_of_a_refused_opening_job_open"] += any(opened_by.get(x) in refused for x in socks)
                 break
     return out
 
@@ -293,9 +325,50 @@ def _ev(e, a=0, **extra):
 # is scheduled, unload
 HAND_HISTORY = [_ev("Register", 1), _ev("TaskStep", 1), _ev("BootInit", 1, t=1), _ev("BootOpen", 1, t=1), _ev("Send", 2),
                 _ev("BootEnd", 1), _ev("TaskStep", 1), _ev("TaskEnd", 1), _ev("BootIn", 1), _ev("Send"),
-                _ev("Handler", 1), _ev("SockOpen", 1), _ev("SockIn", 1), _ev("RmSched", 1),
+                _ev("Handler", 1), _ev("Register", 2, o="sock"), _ev("TaskStep", 2), _ev("SockTry", 2),
+                _ev("SockOpen", 1, t=2), _ev("TaskEnd", 2), _ev("SockIn", 1), _ev("RmSched", 1),
                 _ev("UnloadStart"), _ev("U_Cache"), _ev("U_Listener"), _ev("RmSched", 1), _ev("SockClose", 1),
                 _ev("BootClose", 1), _ev("U_Tasks"), _ev("U_Boot", s=[]), _ev("U_Tunnels", s=[]), _ev("UnloadDone")]
+
+
+# an exit node on a host without IPv6: the opening job of an exit socket gets its IPv4 socket, the IPv6 one is refused;
+# the opening job of a second exit socket is cancelled (its exit socket is removed) while its first attempt is in flight
+HAND_OPEN = [_ev("Handler", 1), _ev("Register", 1, o="sock"), _ev("TaskStep", 1), _ev("SockTry", 1), _ev("TaskStep", 1),
+             _ev("SockOpen", 1, t=1), _ev("SockTry", 1), _ev("SockFail", 1), _ev("TaskStep", 1), _ev("TaskEnd", 1),
+             _ev("Send", 1), _ev("SockIn", 1), _ev("Send"),
+             _ev("Handler", 1), _ev("Register", 2, o="sock"), _ev("TaskStep", 2), _ev("SockTry", 2), _ev("SockFail", 2),
+             _ev("TaskStep", 2), _ev("TaskEnd", 2),
+             _ev("UnloadStart"), _ev("U_Listener"), _ev("SockClose", 1), _ev("U_Cache"), _ev("U_Tasks"),
+             _ev("U_Boot", s=[]), _ev("U_Tunnels", s=[]), _ev("UnloadDone")]
+
+
+def _open_variants(evs):
+    """corruptions of a log in which outside sockets are acquired with refused / cancelled attempts (hand-made or
+    recorded), each to be rejected"""
+    done = max(i for i, x in enumerate(evs) if x["e"] == "UnloadDone")
+    out = {}
+    opener = {x["a"]: x["t"] for x in evs if x["e"] == "SockOpen"}
+    refused = [x["a"] for x in evs if x["e"] == "SockFail"]
+    partial = [s for s, t in opener.items() if t in refused]
+    if partial:
+        s = partial[0]
+        out["socket of an opening job with a refused attempt is still open when unload returns"] = \
+            [dict(x, s=[s]) if x["e"] == "U_Tunnels" else x for x in evs if not (x["e"] == "SockClose" and x["a"] == s)]
+        out["datagram on the socket of an opening job with a refused attempt is handled after unload"] = \
+            evs[:done + 1] + [_ev("SockIn", s)]
+    tries = [i for i, x in enumerate(evs) if x["e"] == "SockTry"]
+    if tries:
+        i = tries[0]
+        t = evs[i]["a"]
+        out["task ends while a socket open attempt it made is in flight"] = \
+            evs[:i + 1] + [_ev("TaskEnd", t)] + [x for x in evs[i + 1:]
+                                                 if not (x["e"] in ("TaskStep", "TaskEnd") and x["a"] == t)]
+        out["socket is opened that no task asked for"] = evs[:i] + evs[i + 1:]
+        if not any(x["e"] == "UnloadStart" for x in evs[:i + 1]):
+            # unload cancels the job while its attempt is in flight - and the attempt hands out a socket all the same
+            out["socket is handed to an opening job that was cancelled"] = \
+                evs[:i + 1] + [_ev("UnloadStart"), _ev("U_Tasks"), _ev("SockOpen", 999, t=t)]
+    return out
 
 
 def _history_variants(evs):
@@ -364,6 +437,11 @@ def trace_controls(ctx, traces):
     group("hand-made log", hand, HAND_MADE, _variants(HAND_MADE))
     group("hand-made log with history", {"wiring": "plain", "kind": "tunnel"}, HAND_HISTORY,
           _history_variants(HAND_HISTORY))
+    group("hand-made log with refused socket", {"wiring": "plain", "kind": "tunnel"}, HAND_OPEN, _open_variants(HAND_OPEN))
+    refd = [t for t in traces if t["wiring"] == "plain" and history_cover([t])["socket_of_a_refused_opening_job_open"]]
+    if refd:
+        group("recorded %s log (unload at %s)" % (refd[0]["cls"], refd[0]["k"]), {"wiring": "plain", "kind": "tunnel"},
+              refd[0]["events"], _open_variants(refd[0]["events"]))
     base = [t for t in traces if t["kind"] == "cache" and t["k"] is None and t["wiring"] == "plain"
             and any(e["e"] == "TaskEnd" for e in t["events"])]
     if base:
@@ -402,7 +480,9 @@ def run(tier, seed, replay=None):
                        "states and refusal counters compared; Unload.tla model checked for 2 wirings x 3 overlay kinds; "
                        "recorded runs = 9 overlay classes (+ an overlay with the shipped bootstrappers: unload at every "
                        "event after bootstrap(); + an exit-only tunnel overlay: unload while the removal of its exit "
-                       "sockets is pending) x 2 endpoint wirings x unload requested at sampled (thorough: "
+                       "sockets is pending; + the same on a host that is slow to open outside sockets and refuses some "
+                       "(no IPv6, no descriptor, opening job cancelled by a removal): unload at every SockTry/SockOpen/"
+                       "SockFail event) x 2 endpoint wirings x unload requested at sampled (thorough: "
                        "dense) events and random virtual times, each followed by replayed captures, 256 forged message "
                        "ids, outside datagrams, late register_task/cache.add calls and 2 h virtual time; TLC validates "
                        "every event; non-trivial = distinct (class, wiring, unload point) logs and distinct graph walks")
@@ -413,7 +493,10 @@ def run(tier, seed, replay=None):
                         "attributed to the overlay; of coroutines started outside the task manager only bootstrapper "
                         "initialisations are followed",
                         "the OS socket of UDPBroadcastBootstrapper is simulated (two loop iterations to open, as "
-                        "asyncio's create_datagram_endpoint needs)"]
+                        "asyncio's create_datagram_endpoint needs)",
+                        "outside sockets are opened by a simulated loop.create_datagram_endpoint: an attempt takes the "
+                        "virtual time the scenario's plan says and ends with a transport or OSError; like asyncio it hands "
+                        "nothing to a caller that was cancelled in between (the half-open socket is closed by the loop)"]
     JVM["opts"] = LIGHT_JVM if tier == "quick" else ()
     rng = random.Random(seed)
     # node keys derived from the seed: DHT distances, hence the order of events, depend on them
@@ -433,9 +516,11 @@ def run(tier, seed, replay=None):
             for cfg in UNLOAD_CFGS:
                 mc[cfg] = pool.submit(tlc, "Unload.tla", cfg, workers=2)
             mc["tm_pinned"] = pool.submit(tlc, "TaskManager.tla", "TaskManager_pinned.cfg", workers=2, coverage=False)
-        big = None
+        big = big_unload = None
         if tier == "thorough":
             big = pool.submit(tlc, "TaskManager.tla", "TaskManager_o6t5.cfg", coverage=False, timeout=3000)
+            # two exit socket tasks, two open attempts of one task in flight side by side
+            big_unload = pool.submit(tlc, "Unload.tla", "Unload_mc2.cfg", coverage=False, timeout=3000)
 
         t0 = time.monotonic()
         tm_cfg = "TaskManager_o4.cfg" if tier == "quick" else "TaskManager_o5.cfg"
@@ -477,6 +562,11 @@ def run(tier, seed, replay=None):
             if not rb.ok:
                 raise MachineryError("TaskManager_o6t5: TLC reports %s on the specification" % rb.violated)
             ctx.add_tlc("tm_o6t5", rb)
+        if big_unload is not None:
+            rb = big_unload.result()
+            if not rb.ok:
+                raise MachineryError("Unload_mc2: TLC reports %s on the specification" % rb.violated)
+            ctx.add_tlc("unload_mc2", rb)
         ctx.note("wall_split_s", {"recording_and_trace_validation": round(t1 - t0, 1), "trace_controls": round(t2 - t1, 1),
                                   "model_checking_and_taskmanager_replay": round(time.monotonic() - t2, 1)})
     ctx.cov["exhaustive"] = True
